@@ -921,6 +921,8 @@ const JS_SNIPPETS: &[&str] = &[
   // suppressions that are used only by a match NESTED inside a node another rule fixes
   "// ast-grep-ignore: a-num\nfoo(7);\n", "foo(8); // ast-grep-ignore: a-num\n", "// ast-grep-ignore\nfoo(bar(6));\n",
   "// ast-grep-ignore: p-callee\nfoo(foo(9));\n", "// ast-grep-ignore: a-num\nbar(5);\n",
+  // nodes that begin with a token a pattern may skip, with multi-byte text near their end
+  "async function af() { work('日本語') }\n", "class K { static sm() { return '語' } }\n", "function pf() { g() }\n",
   // several comments before a `debugger` statement (expandStart … stopBy: end picks the nearest)
   "// first é\nbar(5);\n// second\ndebugger;\n", "/* a */ foo(1); /* b */ debugger;\n",
   // two expanding fixes that share a separator, with a third fix nested inside the one that loses
@@ -1004,14 +1006,31 @@ fn gen_project(rng: &mut Rng, k: usize) -> Project {
   match k % 4 {
     0 => {
       // run -p/-r on js/ts files
-      let pats = [("foo($A)", "bar($A)"), ("foo($$$A)", "baz($$$A)"), ("$A", "($A)"), ("foo($A)", "$A"), ("debugger", ""), ("let $A = $B", "const $A = $B")];
+      let pats = [("foo($A)", "bar($A)"), ("foo($$$A)", "baz($$$A)"), ("$A", "($A)"), ("foo($A)", "$A"), ("debugger", ""), ("let $A = $B", "const $A = $B"),
+        // patterns that match a node whose FIRST token they skip (`async`, `static`): the replaced
+        // range still starts at the node and must end at the end of a node below it
+        ("function $F() { $$$B }", "function $F() { return 1 }"), ("class $C { $M() { $$$B } }", "class $C {}")];
       let (p, r) = *rng.pick(&pats);
       let mut cmd = vec!["run".to_string(), "-p".into(), p.into(), "-r".into(), r.into()];
       if rng.chance(1, 2) {
         cmd.extend(["-l".to_string(), "js".into()]);
       }
       let with_html = rng.chance(1, 3);
-      Project { files: gen_files(rng, with_html), config: vec![], cmd, class: format!("run pattern={p}") }
+      let mut files = gen_files(rng, with_html);
+      // make sure the skipped-first-token patterns meet a node that starts with such a token
+      let extra = if p.starts_with("function") {
+        "async function af() { work('日本語') }\nfunction pf() { g() }\nasync function ag() { h(1) }\n"
+      } else if p.starts_with("class") {
+        "class K { static sm() { return '語' } }\nclass L { m() { return 2 } }\n"
+      } else {
+        ""
+      };
+      if !extra.is_empty() {
+        if let Some(f) = files.iter_mut().find(|f| f.0.ends_with(".js")) {
+          f.1.push_str(extra);
+        }
+      }
+      Project { files, config: vec![], cmd, class: format!("run pattern={p}") }
     }
     _ => {
       // scan with several rules
@@ -1310,6 +1329,20 @@ pub fn update_cli(ctx: &Ctx, rng: &mut Rng, o: &mut Out) {
 /// unit `c06_cli`: the edits the real CLI announces under `--json=stream` (Diff::generate):
 /// inside the file, on char boundaries, start at / contained in the matched node unless the rule
 /// expands, and per document ordered + disjoint after the overlap filter; splice = reference.
+fn file_is_js(f: &str) -> bool {
+  f.ends_with(".js")
+}
+
+/// does `end` coincide with the end of some node inside the node `start..node_end` of the file?
+fn ends_at_a_node_end(content: &str, start: usize, node_end: usize, end: usize) -> bool {
+  if end == node_end || end == start {
+    return true;
+  }
+  let g = SupportLang::JavaScript.ast_grep(content);
+  let found = g.root().dfs().any(|n| n.range().start >= start && n.range().end <= node_end && n.range().end == end);
+  found
+}
+
 pub fn c06_cli(ctx: &Ctx, rng: &mut Rng, o: &mut Out) {
   let n = if ctx.thorough { 2_000 } else { 150 };
   let mut cases = 0usize;
@@ -1348,6 +1381,10 @@ pub fn c06_cli(ctx: &Ctx, rng: &mut Rng, o: &mut Out) {
         Some("range outside file")
       } else if !(content.is_char_boundary(r.start) && content.is_char_boundary(r.end)) {
         Some("range off char boundary")
+      } else if p.class.starts_with("run ") && file_is_js(&a.file) && !ends_at_a_node_end(content, a.node.0, a.node.1, r.end) {
+        // C03 `match_len_no_token_split`: the matched prefix ends where some node of the matched
+        // subtree ends — never inside a token
+        Some("replaced range ends inside a token of the match")
       } else if a.rule == "r-dbg" {
         // reference from the documentation: the range starts at the nearest preceding sibling that
         // is a comment (none: at the node) and ends at the node's end
